@@ -147,10 +147,27 @@ def cmpops(tree):
         if len(node.orelse) == 1 and isinstance(node.orelse[0], ast.If):
             node = node.orelse[0]
         elif not node.orelse:
+            _CMP_FACTS["strict"] = False
+            break
+        elif (len(node.orelse) == 2 and isinstance(node.orelse[1], ast.Raise)
+              and "NotImplementedError" in ast.unparse(node.orelse[1])) or (
+                len(node.orelse) == 1 and isinstance(node.orelse[0], ast.Raise)
+                and "NotImplementedError" in ast.unparse(node.orelse[0])):
+            # `else: raise NotImplementedError`: an operator outside the chain is refused
+            _CMP_FACTS["strict"] = True
             break
         else:
-            raise Unsupported("comparison chain has an else branch")
+            raise Unsupported("comparison chain has an else branch that does not raise NotImplementedError")
+    _CMP_FACTS["translated"] = [c for c in CMP if any(CMP[c] == o for o, _ in out)]
     return out
+
+
+_CMP_FACTS: dict = {}
+
+
+def cmp_classes() -> list[str]:
+    """the subclasses of `ast.cmpop` of the running interpreter"""
+    return sorted(c.__name__ for c in ast.cmpop.__subclasses__())
 
 
 def _dict(tree, name):
@@ -195,7 +212,11 @@ def _binds_symbol(node) -> bool:
     return False
 
 
+_STMT_FACTS: dict = {}
+
+
 def body_facts(tree):
+    _STMT_FACTS["exprConstOnly"] = False
     fn = _fn(tree, "_handle_fn_body")
     wl = [n for n in fn.body if isinstance(n, ast.While)]
     if len(wl) != 1:
@@ -209,6 +230,22 @@ def body_facts(tree):
     branches = {}
     while True:
         t = node.test
+        if (ast.unparse(t) == "isinstance(node, ast.Pass) or (isinstance(node, ast.Expr) and isinstance(node.value, ast.Constant))"
+                and all(isinstance(st, ast.Expr) for st in node.body)):
+            # `pass`, docstrings and bare constants are skipped; any other expression statement has its own branch below
+            _STMT_FACTS["exprConstOnly"] = True
+            kinds.append("<harmless>")
+            branches["<harmless>"] = node.body
+            nxt = node.orelse[0] if len(node.orelse) == 1 and isinstance(node.orelse[0], ast.If) else None
+            if not (nxt is not None and ast.unparse(nxt.test) == "isinstance(node, ast.Expr)"
+                    and any(isinstance(x, ast.Raise) and "NotImplementedError" in ast.unparse(x) for x in nxt.body)):
+                raise Unsupported("_handle_fn_body: expression statements other than constants are not refused")
+            node = nxt
+            if len(node.orelse) == 1 and isinstance(node.orelse[0], ast.If):
+                node = node.orelse[0]
+                continue
+            final_else = node.orelse
+            break
         if not (isinstance(t, ast.Call) and _is_name(t.func, "isinstance") and _is_name(t.args[0], "node")):
             raise Unsupported(f"_handle_fn_body: branch test {ast.unparse(t)}")
         if isinstance(t.args[1], ast.Attribute):
@@ -578,6 +615,11 @@ def render(repo: Path) -> str:
         "/-- `_check_branch`: the accepting conditions (each a conjunction), in source order -/",
         "def checkBranchAccept : List (List CBAtom) := [" + ", ".join("[" + ", ".join("." + a for a in c) + "]" for c in dnf) + "]",
         "",
+        "/-- an expression statement is skipped only when it is a constant (docstring); a walrus / call statement is refused -/",
+        f"def exprStmtConstOnly : Bool := {b(_STMT_FACTS['exprConstOnly'])}",
+        "/-- every subclass of `ast.cmpop`, and the ones the Compare branch translates -/",
+        "def cmpClasses : List String := [" + ", ".join(lstr(k) for k in cmp_classes()) + "]",
+        "def cmpTranslated : List String := [" + ", ".join(lstr(k) for k in _CMP_FACTS["translated"]) + "]",
         "/-- `fn_to_sympy`: a function object whose source is another function's (`inspect.unwrap(fn) is not fn`) is refused -/",
         f"def wrappedRefused : Bool := {b(wrapped_refused)}",
         "/-- free variables are bound to the numbers in the closure's cells (anything else refused), not looked up in the module -/",
@@ -600,6 +642,7 @@ def render(repo: Path) -> str:
         f"  importsStrict := {b(imports_strict)}",
         f"  importsCopied := {b(imports_copied)}",
         f"  sigStrict := {b(sig)}",
+        f"  cmpStrict := {b(_CMP_FACTS['strict'])}",
         "",
         "end Mxl.C06.Generated",
         "",
